@@ -97,6 +97,29 @@ def address_sets(fn):
                 b = X.strip(b["ch"][0])
             if b is not None and b.get("k") == "ref" and b.get("rk") == "local":
                 res.setdefault(b["d"], set()).add(fld)
+    # a pointer local given an element of such an array (slot = part[n]) stands for any of the array's fields
+    changed = True
+    while changed:
+        changed = False
+        for n in walk(fn.body):
+            pairs = []
+            if n.get("k") == "assign" and n.get("op") == "=":
+                pairs.append((n["ch"][0], n["ch"][1]))
+            if n.get("k") == "decl":
+                for d in n.get("decls", ()):
+                    if d.get("init") is not None:
+                        pairs.append(({"k": "ref", "d": d["d"], "rk": "local"}, d["init"]))
+            for l, r in pairs:
+                lb, rb = X.strip(l), X.strip(r)
+                if lb is None or rb is None or lb.get("k") != "ref" or lb.get("rk") != "local":
+                    continue
+                while rb is not None and rb.get("k") == "index":
+                    rb = X.strip(rb["ch"][0])
+                if rb is not None and rb.get("k") == "ref" and rb.get("d") in res and rb.get("d") != lb["d"]:
+                    new = res[rb["d"]] - res.get(lb["d"], set())
+                    if new:
+                        res.setdefault(lb["d"], set()).update(new)
+                        changed = True
     return res
 
 
@@ -150,6 +173,30 @@ def check_done(chk, prog, f, rule="O1"):
                         if x[0] == "detached" and x[1] == a0.get("d"):
                             relsite.setdefault(x[2], n)
                 return frozenset(st)
+        if k == "call" and own.release_kind(n) is None:
+            # a unit-local helper handed self that stores fields of it unconditionally (set_empty(self): head = NULL; len = 0;)
+            g_ = f.unit.functions.get(X.callee_name(n) or "")
+            if g_ is not None and g_.body is not None and g_ is not f:
+                for j_, a_ in enumerate(n["ch"][1:]):
+                    sa_ = X.strip(a_)
+                    if sa_ is not None and sa_.get("k") == "ref" and sa_.get("rk") == "param" and sa_.get("pi") == 0 and j_ < len(g_.params):
+                        stored = set()
+                        for y in walk(g_.body):
+                            if y.get("k") == "assign" and y.get("op") == "=":
+                                fy = self_field(y["ch"][0], j_)
+                                if fy is None:
+                                    continue
+                                q = g_.parent.get(y["i"])
+                                top = True
+                                while q is not None and q is not g_.body:
+                                    if q.get("k") not in ("block", "exprstmt", "paren"):
+                                        top = False
+                                        break
+                                    q = g_.parent.get(q["i"])
+                                if top:
+                                    stored.add(fy)
+                        if stored:
+                            return frozenset(x for x in state if not (x[0] == "rel" and x[1] in stored))
         if k == "assign" and n.get("op") == "=":
             l = X.strip(n["ch"][0])
             flds = denoted_fields(l, frozenset(), addr)
@@ -539,6 +586,12 @@ def run(tier="quick"):
                     for c2 in X.calls_in(g_.body):
                         if own.release_kind(c2) in ("free", "del") and c2["ch"][1:]:
                             t_ = X.strip(c2["ch"][-1] if X.callee_name(c2) == "spifmem_free" else c2["ch"][1])
+                            if t_ is not None and t_.get("k") == "ref" and t_.get("rk") == "local":
+                                # released through a local that holds *param (held = *member; DEL(held))
+                                ds_ = [y["ch"][1] for y in walk(g_.body) if y.get("k") == "assign" and y.get("op") == "=" and (X.strip(y["ch"][0]) or {}).get("d") == t_["d"]]
+                                ds_ += [dc["init"] for y in walk(g_.body) if y.get("k") == "decl" for dc in y.get("decls", ()) if dc["d"] == t_["d"] and dc.get("init") is not None]
+                                if len(ds_) == 1:
+                                    t_ = X.strip(ds_[0])
                             if t_ is not None and t_.get("k") == "un" and t_.get("op") == "*" and X.strip(t_["ch"][0]).get("d") == pd_:
                                 released[rec].add(self_field(sa_["ch"][0]))
         al = field_aliases(f)
